@@ -54,6 +54,9 @@ type scenario struct {
 	pl         *msgpipeline.MsgPipeline
 	registered []string
 	loadErr    error
+	// group E: failed lookups of the scripted failing rewrite tables, in order
+	faultLog    []faultEv
+	startFaults []faultEv // those that happened during Start of the last envelope driven
 }
 
 func featKey(f map[string]bool) string {
@@ -104,6 +107,7 @@ func (sc *scenario) load() {
 	}
 	chk := mx.NewCheck(sc.tag+"_chk", sc.lg)
 	r := newRenderer(sc.g, sc.tag)
+	r.faultName = sc.registerFaultTables()
 	r.tgtName, r.tblName, r.chkLine, r.blk = tname, tblname, mx.CheckRef(chk), blk
 	defer mx.CheckUnref(chk)
 	body := r.pipe(sc.top)
@@ -200,6 +204,7 @@ type rcptObs struct {
 	count     map[pair]int // how often each pair was handed over (recipients are not deduplicated after expansion)
 	unknown   []string
 	afterData bool
+	faults    []faultEv // lookups of failing rewrite tables that returned an error during this RCPT
 }
 
 // drive sends one message through the loaded pipeline and records, per envelope recipient,
@@ -208,10 +213,13 @@ func (sc *scenario) drive(env envelope, ei int) (error, []rcptObs) {
 	ctx := context.Background()
 	meta := &module.MsgMetadata{ID: fmt.Sprintf("%s-m%d", sc.tag, ei), OriginalFrom: env.senderText, SMTPOpts: smtp.MailOptions{UTF8: true}}
 	out := make([]rcptObs, len(env.rcpts))
+	nf := len(sc.faultLog)
 	d, startErr := sc.pl.Start(ctx, meta, env.senderText)
+	sc.startFaults = append([]faultEv(nil), sc.faultLog[nf:]...)
 	accepted := 0
 	for i := range env.rcpts {
 		before := sc.lg.Len()
+		nf = len(sc.faultLog)
 		o := &out[i]
 		o.handed = map[pair]bool{}
 		o.count = map[pair]int{}
@@ -223,6 +231,7 @@ func (sc *scenario) drive(env envelope, ei int) (error, []rcptObs) {
 		if o.err == nil {
 			accepted++
 		}
+		o.faults = append([]faultEv(nil), sc.faultLog[nf:]...)
 		for _, e := range sc.lg.Events()[before:] {
 			if e.Kind != "addrcpt.call" {
 				continue
@@ -584,6 +593,14 @@ func TestVerif(t *testing.T) {
 		i := groupD + j
 		r.Run(i, fmt.Sprintf("chain-%d", j), func(c *rep.Case) {
 			runChainCase(r, c, func(msg string) { t.Fatalf("%s", msg) }, i, j, envPer)
+		})
+	}
+	// ---------------- group E: rewrite tables whose lookups fail (fault_test.go) ----------------
+	nE := r.N(1200, 30000)
+	for j := 0; j < nE; j++ {
+		i := groupE + j
+		r.Run(i, fmt.Sprintf("lookup-error-%d", j), func(c *rep.Case) {
+			runFaultCase(r, c, func(msg string) { t.Fatalf("%s", msg) }, i, j, envPer)
 		})
 	}
 	// ---------------- group A: complete configurations x envelopes ----------------
